@@ -50,6 +50,12 @@ add("C07", "jaxpr2smt+pysym",
     "input graph satisfies the documented Vertex/Edge contract; floats as reals; shapes <= (W=3,N1=6,N2=4,E=6)",
     "DESIGN.md §6 C07")
 
+add("C18", "jaxpr2smt",
+    "bounded symbolic execution of the jaxpr of cem_update_mean_stdev over z3 IEEE Float32 terms (NaN/inf exact; argsort via symbolic ranks under XLA's total order) and of gaussian_samples over reals with oracle noise; z3 decides the clauses for all losses/samples/previous states; counterexamples replayed on the real eager+jit function",
+    "CEM only: one update from an arbitrary previous state keeps best-so-far monotone, minimal, attained and non-NaN; a NaN candidate is never the best and never displaces a finite candidate from the elites; candidates lie within bounds. Bounded: 4(6) samples, elite portions listed, 1-2 parameter leaves. The literal clause 'no NaN elite while a finite candidate exists' fails when fewer finite candidates than elites exist: known finding K3. evosax strategies are outside the claim.",
+    "one-step induction over iterations; previous best-so-far loss not NaN; noise oracle; rex.evo not covered (candidate generation/selection happen inside evosax)",
+    "DESIGN.md §6 C18")
+
 def main():
     checks = []
     for pid in sorted(CHECKS):
